@@ -216,9 +216,15 @@ class Run:
         self.violations.append(rel)
         self.records = getattr(self, "records", []) + [replay]
         line = f"VIOLATION property={self.pid} replay={rel}"
-        if suffix:
+        if suffix == "no-failing-input-found":  # the only words the interface allows after the replay path
             line += " " + suffix
+        elif suffix:
+            replay.setdefault("summary", suffix)
+            print(f"detail: {rel}: {suffix}", flush=True)
         print(line, flush=True)
+        if "summary" in replay:
+            with open(path, "w") as f:
+                json.dump(replay, f, indent=1, default=str)
         if len(self.violations) >= MAX_REPLAYS:
             raise StopExploration()
 
